@@ -99,6 +99,8 @@ fn mutspec_str(m: &MutSpec) -> String {
         MutKind::FmtMut => "fmtmut",
         MutKind::CstrFmtMut => "cstrfmtmut",
         MutKind::TryWithMut => "trywithmut",
+        MutKind::VecDyn => "vecdyn",
+        MutKind::VecRevDyn => "vecrevdyn",
     };
     let extra = match m.extra {
         MutExtra::None => "none".to_string(),
@@ -130,6 +132,8 @@ fn mutspec_parse(s: &str) -> Option<MutSpec> {
         "fmtmut" => MutKind::FmtMut,
         "cstrfmtmut" => MutKind::CstrFmtMut,
         "trywithmut" => MutKind::TryWithMut,
+        "vecdyn" => MutKind::VecDyn,
+        "vecrevdyn" => MutKind::VecRevDyn,
         _ => return None,
     };
     let extra = if p[4] == "none" {
